@@ -78,10 +78,31 @@ def runPath : Nat → List Frame → List Edge → Option (Nat × List Frame × 
       | none => none
       | some (d', st', m) => some (d', st', min d m)
 
-/-- depths of the stack before each of a sequence of instructions (`u` push, `o` pop, anything else
-a write), starting from the interpreter's initial stack `[Registers::new()]` -/
-def depths : List Frame → List Op → List Nat
+/-- what an executed instruction does to `register_stack` and `return_marks` -/
+inductive MOp where
+  | op (o : Op)
+  /-- `PushRet`: the height is recorded -/
+  | call
+  /-- `PopRet`: back to the height recorded at the call (`register_stack.truncate`) -/
+  | ret
+  /-- RESUME label (with an error recorded): back to the height at the OUTERMOST call in progress -/
+  | leave
+
+/-- the stack (bottom first) and the recorded heights (innermost call first) -/
+def stepM (s : List Frame × List Nat) : MOp → List Frame × List Nat
+  | .op o => (apply s.1 o, s.2)
+  | .call => (s.1, s.1.length :: s.2)
+  | .ret => match s.2 with
+    | m :: rest => (s.1.take m, rest)
+    | [] => (s.1, [])
+  | .leave => match s.2.getLast? with
+    | some m => (s.1.take m, [])
+    | none => (s.1, [])
+
+/-- heights of the stack before each of a sequence of executed instructions, starting from the
+interpreter's initial stack `[Registers::new()]` with no call in progress -/
+def depths : List Frame × List Nat → List MOp → List Nat
   | _, [] => []
-  | st, op :: rest => st.length :: depths (apply st op) rest
+  | s, o :: rest => s.1.length :: depths (stepM s o) rest
 
 end RbModel.Frames
